@@ -284,8 +284,23 @@ func (entry *localFileEntry) Create(targetState FileState, size int64) error {
 		return os.ErrExist
 	}
 
+	// An interrupted Move or Delete can leave metadata files of a previous
+	// incarnation in the entry's directory. They must not become metadata of
+	// the new file.
+	dir := filepath.Dir(targetPath)
+	if files, err := os.ReadDir(dir); err == nil {
+		for _, f := range files {
+			if entry.metadata.Has(f.Name()) {
+				continue
+			}
+			if err := os.RemoveAll(filepath.Join(dir, f.Name())); err != nil {
+				return err
+			}
+		}
+	}
+
 	// Create dir.
-	if err := os.MkdirAll(filepath.Dir(targetPath), DefaultDirPermission); err != nil {
+	if err := os.MkdirAll(dir, DefaultDirPermission); err != nil {
 		return err
 	}
 
